@@ -66,7 +66,12 @@ def run_config(name, programs):
     from vlib import progs, tbatch
     rules = progs.taint_configs()[name][0]
     P = copy.deepcopy(programs)
-    _, info = tbatch.build_batch(P, cmd="run", tables=FLOW_TABLES, settings_files=progs.taint_settings(rules))
+    settings = progs.taint_settings(rules)
+    langs = "python"
+    if name.startswith("c_unit"):
+        settings["entry.yaml"] = '- method_list: ["%unit_init", "f"]\n'
+        langs = "c"
+    _, info = tbatch.build_batch(P, cmd="run", tables=FLOW_TABLES, langs=langs, settings_files=settings)
     return P, info
 
 
@@ -111,6 +116,9 @@ def program_leg(r, tier):
     base_programs = progs.family_taint_justified()
     cfgs = progs.taint_configs()
     todo = {name: [p for p in base_programs if name not in SUBSET or p["name"] in SUBSET[name]] for name in cfgs}
+    for name in cfgs:
+        if name.startswith("c_unit"):
+            todo[name] = progs.family_taint_c()
     with ThreadPoolExecutor(5) as ex:
         results = dict(zip(todo, ex.map(lambda n: run_config(n, todo[n]), todo)))
     reported = {}
@@ -200,7 +208,7 @@ def replay(rec):
     if isinstance(cex.get("cex"), dict) and cex["cex"].get("kind") in ("flow", "lost"):
         from vlib import progs
         c = cex["cex"]
-        prog = [p for p in progs.family_taint_justified() if p["name"] == c["prog"]]
+        prog = [p for p in progs.family_taint_justified() + progs.family_taint_c() if p["name"] == c["prog"]]
         if not prog:
             return False, f"program {c['prog']} is no longer in the family"
         rules = progs.taint_configs()[c["config"]][0]
